@@ -251,4 +251,34 @@ example : (select ⟨["main.example"], ["ping.example"], [], [], [], [.h1]⟩ [s
 example : (select ⟨["main.example"], [], [], [], [], [.h1, .h2]⟩ [some .h2] "user.main.example").map (·.creds) = some (some "user") := by decide
 
 
+/-- the selections of a history, each answered from one fixed configuration -/
+def selectionsUnder (cfg : Cfg) : List Ev → List (Option Meta)
+  | [] => []
+  | .reload _ :: rest => selectionsUnder cfg rest
+  | .select a s :: rest => select cfg a s :: selectionsUnder cfg rest
+
+/-- **Failed reloads are invisible**: however many reloads with settings that do not validate are
+interleaved with the connections, every connection is answered exactly as if no reload had been
+attempted - from the configuration in force before -/
+theorem failed_reloads_invisible (enabled : List Proto) (rp : Bool) (cur : Cfg) (evs : List Ev)
+    (h : ∀ hs, Ev.reload hs ∈ evs → hs.valid = false) :
+    run enabled rp cur evs = selectionsUnder cur evs := by
+  induction evs with
+  | nil => rfl
+  | cons e rest ih =>
+    have ih' := ih (fun hs hm => h hs (List.mem_cons_of_mem _ hm))
+    cases e with
+    | reload hs =>
+      have hv := h hs (by simp)
+      simp only [run, selectionsUnder, reload_failure_keeps_old enabled rp cur hs hv]
+      exact ih'
+    | select a s =>
+      simp only [run, selectionsUnder, ih']
+
+/-- reloading the same valid settings again changes nothing -/
+theorem reload_idempotent (enabled : List Proto) (rp : Bool) (cur : Cfg) (hs : HostsSettings) :
+    (reload enabled rp (reload enabled rp cur hs).1 hs).1 = (reload enabled rp cur hs).1 := by
+  unfold reload
+  split <;> simp_all
+
 end TT.Demux
